@@ -641,6 +641,20 @@ func sizeClass(prefix string, n int) string {
 	}
 }
 
+// isInvPow2Multiple tells whether v = k * 2^(-s) mod q for some s in 1..40 and k < 2^24
+// (a huge integer that a multiplication by a small power of two makes small).
+func isInvPow2Multiple(v, q *big.Int) bool {
+	x := new(big.Int).Set(v)
+	for s := 1; s <= 40; s++ {
+		x.Lsh(x, 1)
+		x.Mod(x, q)
+		if x.BitLen() <= 24 {
+			return true
+		}
+	}
+	return false
+}
+
 // shapeClasses labels the static shape of a case.
 func shapeClasses(c *Case, v verdict, B int) []string {
 	set := map[string]bool{"field:" + c.Field: true, "builder:" + c.Builder: true}
@@ -658,6 +672,9 @@ func shapeClasses(c *Case, v verdict, B int) []string {
 		val := bigOf(r.Val)
 		if !v.rcOK[i] {
 			set["rc:out-of-range"] = true
+			if B > 64 && isInvPow2Multiple(val, fieldOf(c.Field).Q) {
+				set["rcval:k*2^-s"] = true
+			}
 			if val.BitLen() == r.Bits+1 && val.TrailingZeroBits() == uint(r.Bits) {
 				set["rcval:2^n"] = true
 			}
@@ -809,6 +826,16 @@ func run(cc Case) ev.Outcome {
 				nt = true
 				classes = append(classes, "width-not-multiple-of-limb")
 				break
+			}
+		}
+		for i, r := range c.RCs {
+			if r.Bits >= w {
+				continue
+			}
+			classes = append(classes, "width<limbwidth")
+			// the value an aligning multiplication by 2^(limb-width) would send into the table
+			if al := new(big.Int).Lsh(bigOf(r.Val), uint(w-r.Bits)); !v.rcOK[i] && al.Mod(al, f.Q).BitLen() <= w {
+				classes = append(classes, "width<limbwidth:value*2^(limb-width)-in-table")
 			}
 		}
 		if c.Builder != "engine" && obsWidth != replicaWidth(c.Builder, c.RCs) {
